@@ -50,9 +50,14 @@ type Plan struct {
 	Ops []Op `json:"ops"`
 }
 
-const tablePrefix = "a"
+// views: 0 = the raw store, 1 = rawdb.NewTable(prefix 00), 2 = rawdb.NewTable(prefix ff).
+// The alphabet has two adjacent symbols (00,01: the successor of a prefix is itself a
+// key) and the maximal byte (ff: carry handling in upper bounds, MaximumKey hack).
+var viewPrefix = [3]string{"", "\x00", "\xff"}
 
-var alphabet = []byte{0x00, 'a', 0xff}
+const nViews = 3
+
+var alphabet = []byte{0x00, 0x01, 0xff}
 
 type keyGen struct {
 	r    *simcore.Rand
@@ -128,7 +133,7 @@ func gen(r *simcore.Rand, tier string) any {
 		}
 		return v
 	}
-	view := func() int { return r.Intn(2) }
+	view := func() int { return r.Pick(3, 2, 2) }
 	for len(p.Ops) < n {
 		switch r.Pick(14, 6, 6, 10, 4, 22, 8, 8, 3, 2, 1, 1) {
 		case 0:
@@ -165,13 +170,13 @@ func gen(r *simcore.Rand, tier string) any {
 			case 0:
 				p.Ops = append(p.Ops, Op{K: "bwrite", V: v, S: s})
 			case 1:
-				if v == 1 && !useTableReplay {
+				if v != 0 && !useTableReplay {
 					p.Ops = append(p.Ops, Op{K: "bwrite", V: v, S: s})
 				} else {
 					p.Ops = append(p.Ops, Op{K: "breplayb", V: v, S: s, TV: view(), T: r.Intn(2)})
 				}
 			case 2:
-				if v == 1 && !useTableReplay {
+				if v != 0 && !useTableReplay {
 					p.Ops = append(p.Ops, Op{K: "bwrite", V: v, S: s})
 				} else {
 					p.Ops = append(p.Ops, Op{K: "breplays", V: v, S: s, TV: view()})
@@ -327,7 +332,7 @@ type backend struct {
 	name    string
 	dir     string
 	kv      ethdb.KeyValueStore
-	views   [2]ethdb.KeyValueStore
+	views   [nViews]ethdb.KeyValueStore
 	exp     store
 	batches map[[2]int]*mbatch
 	iters   [4]*miter
@@ -341,10 +346,7 @@ type world struct {
 }
 
 func abs(view int, k []byte) []byte {
-	if view == 1 {
-		return append([]byte(tablePrefix), k...)
-	}
-	return append([]byte{}, k...)
+	return append([]byte(viewPrefix[view]), k...)
 }
 
 // absRange maps a view-relative range to store-absolute bounds.
@@ -352,12 +354,12 @@ func absRange(view int, start, end []byte) ([]byte, []byte) {
 	if view == 0 {
 		return start, end
 	}
-	s := append([]byte(tablePrefix), start...)
+	s := append([]byte(viewPrefix[view]), start...)
 	var e []byte
 	if end == nil {
-		e = append([]byte(tablePrefix), ethdb.MaximumKey...)
+		e = append([]byte(viewPrefix[view]), ethdb.MaximumKey...)
 	} else {
-		e = append([]byte(tablePrefix), end...)
+		e = append([]byte(viewPrefix[view]), end...)
 	}
 	return s, e
 }
@@ -380,7 +382,8 @@ func (w *world) open(b *backend) {
 		simcore.Harnessf("open %s: %v", b.name, err)
 	}
 	b.views[0] = b.kv
-	b.views[1] = rawdb.NewTable(rawdb.NewDatabase(b.kv), tablePrefix)
+	b.views[1] = rawdb.NewTable(rawdb.NewDatabase(b.kv), viewPrefix[1])
+	b.views[2] = rawdb.NewTable(rawdb.NewDatabase(b.kv), viewPrefix[2])
 }
 
 func dump(kv ethdb.KeyValueStore) store {
@@ -419,8 +422,11 @@ func trunc(b []byte) []byte {
 }
 
 func viewName(v int) string {
-	if v == 1 {
-		return "table"
+	switch v {
+	case 1:
+		return "table00"
+	case 2:
+		return "tableff"
 	}
 	return "raw"
 }
@@ -472,7 +478,13 @@ func (b *backend) batch(view, slot int) *mbatch {
 	k := [2]int{view, slot}
 	mb := b.batches[k]
 	if mb == nil {
-		mb = &mbatch{real: b.views[view].NewBatch(), view: view, causes: map[string]bool{}, sizeExact: true}
+		var real ethdb.Batch
+		if slot%2 == 1 {
+			real = b.views[view].NewBatchWithSize(64) // the pre-sized constructor must behave the same
+		} else {
+			real = b.views[view].NewBatch()
+		}
+		mb = &mbatch{real: real, view: view, causes: map[string]bool{}, sizeExact: true}
 		b.batches[k] = mb
 	}
 	return mb
@@ -501,9 +513,9 @@ func rel(view int, ops []bop) []bop {
 	}
 	out := make([]bop, len(ops))
 	for i, o := range ops {
-		out[i] = bop{kind: o.kind, key: o.key[len(tablePrefix):], val: o.val}
+		out[i] = bop{kind: o.kind, key: o.key[len(viewPrefix[view]):], val: o.val}
 		if o.kind == bRange {
-			out[i].val = o.val[len(tablePrefix):]
+			out[i].val = o.val[len(viewPrefix[view]):]
 		}
 	}
 	return out
@@ -533,7 +545,7 @@ func (b *backend) replayLists(mb *mbatch) (spec, alt []bop, altErr bool, causes 
 	}
 	spec = rel(mb.view, mb.spec)
 	alt = rel(mb.view, mb.alt)
-	if mb.view == 1 && hasRange(mb.alt) {
+	if mb.view != 0 && hasRange(mb.alt) {
 		// tableReplayer has no DeleteRange: the inner Replay stops at the first range entry
 		for i, o := range alt {
 			if o.kind == bRange {
@@ -660,7 +672,7 @@ func bs(b []byte) string {
 }
 
 func (w *world) step(op Op) *simcore.Violation {
-	if op.V < 0 || op.V > 1 || op.TV < 0 || op.TV > 1 || op.S < 0 || op.S > 3 || op.T < 0 || op.T > 3 {
+	if op.V < 0 || op.V >= nViews || op.TV < 0 || op.TV >= nViews || op.S < 0 || op.S > 3 || op.T < 0 || op.T > 3 {
 		return nil
 	}
 	res := w.res
@@ -909,10 +921,7 @@ func (w *world) step(op Op) *simcore.Violation {
 			it := &miter{real: b.views[op.V].NewIterator(pfx, st), view: op.V}
 			full := string(abs(op.V, op.Key))
 			lower := full + string(op.Val)
-			strip := 0
-			if op.V == 1 {
-				strip = len(tablePrefix)
-			}
+			strip := len(viewPrefix[op.V])
 			for _, k := range b.exp.sortedKeys() {
 				if strings.HasPrefix(k, full) && k >= lower {
 					it.snap = append(it.snap, [2][]byte{[]byte(k[strip:]), b.exp[k]})
@@ -1058,7 +1067,7 @@ func (w *world) replayErr(b *backend, op Op, err error, altErr bool, causes map[
 
 // ---------------------------------------------------------------- batch visibility
 
-var atomSuffix = [][]byte{{0x00, 0x00}, {0x00, 'a'}, {0x00, 0xff}, {'a', 0x00}, {'a', 'a'}, {'a', 0xff}, {0xff, 0x00}, {0xff, 'a'}, {0xff, 0xff}}
+var atomSuffix = [][]byte{{0x00, 0x00}, {0x00, 0x01}, {0x00, 0xff}, {0x01, 0x00}, {0x01, 0x01}, {0x01, 0xff}, {0xff, 0x00}, {0xff, 0x01}, {0xff, 0xff}}
 
 // atomic: a writer commits M batches of N entries with values unique to (batch, key)
 // while a reader on another thread takes snapshot iterators and ordered point reads.
@@ -1241,7 +1250,7 @@ func Checks() map[string]*simcore.Check {
 	return map[string]*simcore.Check{
 		"C23": {
 			ID: "C23", Engine: "kvsim", Level: "exploration",
-			Rule: "plan = 25-90 (thorough: up to 220) operations drawn over a 3-symbol key alphabet {00,61,ff} with keys of length 0-4 reused from a pool, empty/nil values, nil/empty/inverted range bounds: Put/Delete/DeleteRange/Get/Has, batches in 2 slots per view (Put/Delete/DeleteRange/ValueSize/Reset/Write, Replay into another batch and into a store, across raw and table views), 4 iterator slots (prefix+start) opened at any time and advanced/drained later, clean close+reopen of pebble and leveldb, Compact, SyncKeyValue, and a two-thread batch-visibility phase. Each operation goes to memorydb, pebble.New(dir) and leveldb.New(dir), through the raw handle or rawdb.NewTable(prefix 61), and to a sorted-map reference model; every return value, every iterator entry (content as of NewIterator) and, after every mutation, the full store content are compared with the model for each backend. Non-trivial = run that wrote a batch and used an iterator or a range deletion; distinct = distinct (operation kinds used, final content) fingerprints.",
+			Rule: "plan = 25-90 (thorough: up to 220) operations drawn over a 3-symbol key alphabet {00,01,ff} with keys of length 0-4 reused from a pool, empty/nil values, nil/empty/inverted range bounds: Put/Delete/DeleteRange/Get/Has, batches in 2 slots per view (Put/Delete/DeleteRange/ValueSize/Reset/Write, Replay into another batch and into a store, across raw and table views), 4 iterator slots (prefix+start) opened at any time and advanced/drained later, clean close+reopen of pebble and leveldb, Compact, SyncKeyValue, and a two-thread batch-visibility phase. Each operation goes to memorydb, pebble.New(dir) and leveldb.New(dir), through the raw handle or rawdb.NewTable with prefix 00 or ff, and to a sorted-map reference model; every return value, every iterator entry (content as of NewIterator) and, after every mutation, the full store content are compared with the model for each backend. Non-trivial = run that wrote a batch and used an iterator or a range deletion; distinct = distinct (operation kinds used, final content) fingerprints.",
 			Assumptions: []string{
 				"nil and empty byte slices are the same observation for values and for Key()/Value() of an exhausted iterator",
 				"Batch.ValueSize is an estimate: checked exactly only for batches of puts/deletes, otherwise only 0 when empty/reset and never decreasing",
@@ -1255,7 +1264,7 @@ func Checks() map[string]*simcore.Check {
 				"pebble and leveldb run their own flush/compaction/metrics goroutines as real threads outside any synctest bubble; they are not gate-scheduled",
 				"the batch-visibility phase runs one writer and one reader as real threads (GOMAXPROCS 2/4): interleavings are sampled by the Go scheduler, not decided by the plan",
 			},
-			Runs: map[string]int{"quick": 6000, "thorough": 200000},
+			Runs: map[string]int{"quick": 2400, "thorough": 200000},
 			Gen:  gen, Decode: decode, Run: run, Shrink: shrink,
 			ProbeNames: []string{"range-delete-removed-keys", "range-delete-inverted-or-empty", "get-empty-value", "empty-key-read-hit", "batch-with-range-delete-written",
 				"multi-entry-batch-written", "replay-into-batch", "replay-into-store", "iterator-nonempty", "iterator-entry-differs-from-current-store", "reopen",
